@@ -126,7 +126,7 @@ void h_emit_step(void)
   int want_rv = -1;
   ASSUME(m0 >= 1 && m0 <= MB);
   for (i = 0; i < NB; i++) { ASSUME(IN.link[i] < n && IN.byte[i] <= VMAX); tt[i] = (IN.link[i] << 8) | IN.byte[i]; }
-  ASSUME(IN.start < n && IN.m2 <= NB);
+  ASSUME(IN.start < n && IN.m2 <= NB);   /* remaining input count 0..NB */
   /* arbitrary resume state */
   memset(&ds, 0, sizeof ds);
   ds.tt = tt; ds.block_size = n;
